@@ -160,8 +160,9 @@ def frame(buf: bytes, closed: bool, methods: list):
 
 BEHAVIOURS = ["ok", "ok", "ok", "fclose", "read", "http", "exc", "timeout", "none", "stream", "stream_exc", "cancel",
               "stream_http", "swallow",        # these two were defects until ff054f9 / ba690df
-              "stream_timeout"]
-DEFECT_BEHAVIOURS = ["stream_other"]
+              "stream_timeout",
+              "stream_other"]                  # a defect until 2a9b996
+DEFECT_BEHAVIOURS: list = []
 
 
 def enc_request(i, r):
@@ -1508,14 +1509,7 @@ def run(ctx):
 # ----------------------------------------------------------------------------------------------
 # known findings
 
-def _sig_stream_then_other_response(case, params):
-    """handler started a streamed response and then RETURNED a different fresh response: a second head inside the first body"""
-    return case.get("vkind") in ("malformed-wire", "order", "incomplete-open", "unanswered-open") and "stream_other" in case.get("ran_kinds", [])
-
-
-SIGNATURES = {
-    "stream_then_other_response": _sig_stream_then_other_response,
-}
+SIGNATURES: dict = {}       # no open known finding: every violation is reported
 
 
 def replay(ctx, case):
